@@ -5,17 +5,21 @@ from .common import find_calls, one_call, call_outcomes, TRUTH, flip
 from . import paths as P
 
 EXPLANATION = (
-    "Decides the SAFETY half of C11 structurally: the per-(document,peer) coordination automaton read off the MIR of "
-    "engine/state.rs by finite path evaluation equals the transition table written from the property text (start_connect, "
-    "accept_request incl. the id tie-break's antisymmetry over cmp(me,peer), finish, set_sync_running), the fields `state` and "
-    "`resync_requested` have no writer outside that table (who-may-write), namespace-level wrappers decline unknown documents "
-    "as NotFound / false / None, and in engine/live.rs a dial is spawned only on the true edge of start_connect, accept delegates "
-    "to accept_request with the local endpoint id, and the follow-up dial is guarded by the flag returned from finish and uses "
-    "reason Resync; (R3) every completion releases the slot: abort_connect's transition table, both completion handlers of the "
-    "live actor (dial finished, accept finished) evaluated on every result class reach finish / abort_connect for the session's "
-    "(document, peer) on every path, and once the accept callback allowed a request the acceptor's errors name the document (else the "
-    "handler cannot release). NOT decided (stated as such): progress under loss — which completion events arrive, interleavings of the "
-    "two automata over a network (model checking, a different family)."
+    'Decides the SAFETY half of C11 structurally: the per-(document,peer) coordination automaton read off the MIR of '
+    'engine/state.rs by finite path evaluation equals the transition table written from the property text (start_connect, '
+    "accept_request incl. the id tie-break's antisymmetry over cmp(me,peer), finish, set_sync_running), the fields `state` "
+    'and `resync_requested` have no writer outside that table (who-may-write), namespace-level wrappers decline unknown '
+    'documents as NotFound / false / None, and in engine/live.rs a dial is spawned only on the true edge of start_connect, '
+    'accept delegates to accept_request with the local endpoint id, and the follow-up dial is guarded by the flag returned '
+    "from finish and uses reason Resync; (R3) every completion releases the slot: abort_connect's transition table, both "
+    'completion handlers of the live actor (dial finished, accept finished) evaluated on every result class reach finish / '
+    "abort_connect for the session's (document, peer) on every path, and once the accept callback allowed a request the "
+    "acceptor's errors name the document (else the handler cannot release). The finish table is written from the property "
+    'text: the session that owns the slot frees it, a result of the other kind (dialled / accepted) leaves the slot alone; '
+    'abort_connect hands a queued resync to the caller, and the completion handler follows it up with exactly one dial; '
+    "(R4) a declined dial's release can tell which dial it is about (reports F22, known finding). NOT decided (stated as "
+    'such): progress under loss — which completion events arrive, interleavings of the two automata over a network (model '
+    'checking, a different family).'
 )
 ASSUMPTIONS = [
     "completion handlers are invoked by the runtime for every finished task (not decided)",
